@@ -5,15 +5,18 @@ import shutil
 
 import apel
 import clirun
+import toprun
 import common
 import pelbuild
 from common import Check, lean_batch
 
-TRUSTED = ['Lean 4.33.0 kernel (+ leanchecker in the thorough tier)',
+TRUSTED = ['harness/toprun.py (worlds materialised as real trees, the real peltool.main() run end to end in-process with nothing replaced, recursive snapshots, comparison with the driver op runmain = Pel.runMain of PelModel/Top.lean)',
+           'Lean 4.33.0 kernel (+ leanchecker in the thorough tier)',
            'axioms: propext, Classical.choice, Quot.sound only (audited per theorem)',
            'harness/c09.py + clirun.py + apel.py (directory generator, in-process CLI runs, comparison), Drv.lean protocol parsing',
            'compiled driver peldrv agrees with the kernel reading of the same definitions']
-ASSUME = ['unreadable in the sense of undecodable CONTENT; permission errors / dangling symlinks are not exercised (the sandbox runs as root)',
+ASSUME = ['whole-command model: -o names the -p directory iff absent/empty or the same string; the -f file is not a top-level file of the -p directory; --json is composed in batch form (an output name equal to another input file name is outside the composition)',
+          'unreadable in the sense of undecodable CONTENT; permission errors / dangling symlinks are not exercised (the sandbox runs as root)',
           'os.walk and sorting are modelled; the CLI is run in-process with a subprocess sample']
 RULE = ('cases = (directory D of decodable PELs, junk set J: empty file, every kind of truncation, random bytes, bad section ids, the PCE-size '
         'witness, subdirectories containing valid PELs; mode in -l -a -n --plid --src -j, with and without --hex); each mode is run on D and '
@@ -151,6 +154,8 @@ def run(tier, seed):
         env.uninstall()
         for p in paths:
             shutil.rmtree(p, ignore_errors=True)
+    # the WHOLE command end to end on real trees vs Pel.runMain (PelModel/Top.lean), and the command-level properties on the real runs
+    toprun.check_top(ck, tier, 'junk')
     return ck.finish(RULE, TRUSTED, ASSUME)
 
 
